@@ -589,7 +589,7 @@ def engine(prop, tier, seed, work):
 
 # clauses of the Released group: what the kernel's epoll table / the slot list hold after an adapter is gone.  They are
 # C16's subject as well ("released fds are deregistered from the poller"), so C16 runs this engine and keeps only them.
-RELEASED_CLAUSES = {"fd_left_in_poller", "foreign_epoll_entry", "slot_leaked"}
+RELEASED_CLAUSES = {"fd_left_in_poller", "foreign_epoll_entry", "slot_leaked", "adapter_not_registered"}
 
 
 def engine_c16(prop, tier, seed, work):
